@@ -88,6 +88,29 @@ Proof.
   - exact root11_in.
 Qed.
 
+
+(* a reused solver (configured attacker Black) over a sequence of roots of this game: every `disproven` is sound *)
+Definition seq11 : list position := Eval vm_compute in root11 :: firstn 3 (succs gen_basis root11).
+Example dfpn_seq_sound_cyclic :
+  Forall2 (fun g (out : dstate * dentry * N * N) =>
+             snd out = 2 -> forall n, wn position (succs gen_basis) (terminal false) (attp false) n g = false)
+          seq11 (prove_seq gen_basis 1000 1000 2 (dsolver0 16) seq11) /\
+  existsb (fun out : dstate * dentry * N * N => snd out =? 2) (prove_seq gen_basis 1000 1000 2 (dsolver0 16) seq11) = true.
+Proof.
+  split; [|vm_compute; reflexivity].
+  apply (dfpn_seq_sound gen_basis false (SpL reach11h)).
+  - apply SpL_step. exact c_step.
+  - apply SpL_small. exact c_small.
+  - apply SpL_hashF. exact c_hash.
+  - apply SpL_nonzero. exact c_nonzero.
+  - apply SpL_moves. exact c_moves.
+  - apply SpL_threats_def. exact c_threats_def.
+  - reflexivity.
+  - assert (H : forallb (inL reach11h) seq11 = true) by (vm_compute; reflexivity).
+    rewrite forallb_forall in H. apply Forall_forall. intros g Hg. apply inL_ok. now apply H.
+  - apply sv0_okL. apply SpL_nonzero. exact c_nonzero.
+Qed.
+
 (* the root is a position of a real game (PnCong3.cinv), and so is every member of the set *)
 Example root11_cinv : cinv (1, 1, 1, 1) false root11.
 Proof. eapply reachable_cinv; [| |exact root11_reachable]; lia. Qed.
